@@ -133,7 +133,9 @@ def shuffle_class_keys(rnd, node, specs, t):
         pt = class_param_types(specs, t[1])
         for k, v in node.value:
             if isinstance(k, yaml.ScalarNode):
-                n += shuffle_class_keys(rnd, v, specs, pt.get(k.value.replace('-', '_')))
+                # only the exact parameter name is a class-typed position: a dashed spelling passes recognition but is processed
+                # and constructed as an extra attribute (plain data, whose own key order is kept)
+                n += shuffle_class_keys(rnd, v, specs, pt.get(k.value))
         keys = [k.value if isinstance(k, yaml.ScalarNode) else None for k, _ in node.value]
         # a mapping with duplicate (or non-scalar) keys is not a well-formed YAML mapping: which duplicate wins depends on the
         # order, so reordering it is not a meaning-preserving change
